@@ -477,4 +477,301 @@ theorem ipmRun_sim (es : List (Nat × IEv)) :
     simp only [ipmRun, bspecRun]
     rw [ha, ih e.1 _ _ hs' hn]
 
+/-! ### C. token bucket -/
+
+/-- Tokens (in `1/U`) the bucket of an address would hold at `t` if asked then. -/
+def Phi (cfg : RateLimitConfig) (U : Nat) (b : Option TokenBucket) (t : Nat) : Nat :=
+  match b with
+  | none => cfg.Burst * U
+  | some b => min (b.tokens + (t - b.lastRefill) * cfg.Rate) (cfg.Burst * U)
+
+def InvB (t0 : Nat) (b : Option TokenBucket) : Prop := ∀ x, b = some x → x.lastRefill ≤ t0
+
+theorem Phi_le_cap (cfg : RateLimitConfig) (U : Nat) (b : Option TokenBucket) (t : Nat) :
+    Phi cfg U b t ≤ cfg.Burst * U := by
+  cases b <;> simp only [Phi] <;> omega
+
+theorem mul_split (R a b c : Nat) (h1 : a ≤ b) (h2 : b ≤ c) : R * (c - a) = R * (c - b) + R * (b - a) := by
+  rw [← Nat.mul_add]; congr 1; omega
+
+theorem Phi_mono (cfg : RateLimitConfig) (U : Nat) (b : Option TokenBucket) {t0 t : Nat}
+    (hi : InvB t0 b) (h : t0 ≤ t) : Phi cfg U b t ≤ Phi cfg U b t0 + cfg.Rate * (t - t0) := by
+  cases b with
+  | none => simp only [Phi]; omega
+  | some x =>
+    have hl := hi x rfl
+    have h3 := mul_split cfg.Rate x.lastRefill t0 t hl h
+    simp only [Phi, Nat.mul_comm _ cfg.Rate]
+    omega
+
+theorem allowB_spec (cfg : RateLimitConfig) (U t : Nat) (b : Option TokenBucket) :
+    (allowB cfg U t b).1.lastRefill = t ∧
+    (allowB cfg U t b).1.tokens + (if (allowB cfg U t b).2 then U else 0) = Phi cfg U b t := by
+  have key : ∀ T : Nat, (take1 U ⟨T, t⟩).1.lastRefill = t ∧
+      (take1 U ⟨T, t⟩).1.tokens + (if (take1 U ⟨T, t⟩).2 then U else 0) = T := by
+    intro T
+    unfold take1
+    by_cases h : T ≥ U
+    · simp [h] <;> omega
+    · simp [h]
+  cases b with
+  | none =>
+    have := key (min (cfg.Burst * U + (t - t) * cfg.Rate) (cfg.Burst * U))
+    simp only [allowB, refill, Option.getD_none, Phi]
+    have h2 : min (cfg.Burst * U + (t - t) * cfg.Rate) (cfg.Burst * U) = cfg.Burst * U := by
+      simp
+    rw [h2] at this
+    simpa [h2] using this
+  | some x =>
+    have := key (min (x.tokens + (t - x.lastRefill) * cfg.Rate) (cfg.Burst * U))
+    simp only [allowB, refill, Option.getD_some, Phi]
+    exact this
+
+theorem cleanupB_Phi (cfg : RateLimitConfig) (U : Nat) (hwf : cfg.Burst * U ≤ cfg.Rate * cfg.TTL)
+    (t : Nat) (b : Option TokenBucket) : Phi cfg U (cleanupB cfg t b) t = Phi cfg U b t := by
+  cases b with
+  | none => rfl
+  | some x =>
+    simp only [cleanupB]
+    split
+    · rename_i hgt
+      have : cfg.Rate * cfg.TTL ≤ cfg.Rate * (t - x.lastRefill) := Nat.mul_le_mul_left _ (by omega)
+      simp only [Phi, Nat.mul_comm _ cfg.Rate]
+      omega
+    · rfl
+
+theorem cleanupB_Inv (cfg : RateLimitConfig) {t : Nat} {b : Option TokenBucket} (hi : InvB t b) :
+    InvB t (cleanupB cfg t b) := by
+  cases b with
+  | none => intro x hx; cases hx
+  | some y =>
+    simp only [cleanupB]
+    split
+    · intro x hx; cases hx
+    · exact hi
+
+theorem lastTime_take_succ (t0 : Nat) (x : Nat × Bool) (xs : List (Nat × Bool)) (n : Nat) :
+    lastTime t0 ((x :: xs).take (n + 1)) = lastTime x.1 (xs.take n) := rfl
+
+theorem admitted_cons (x : Nat × Bool) (xs : List (Nat × Bool)) :
+    admitted (x :: xs) = (if x.2 then 1 else 0) + admitted xs := by
+  simp only [admitted, List.filter_cons]
+  split <;> simp <;> omega
+
+/-- The potential argument: along any time line, what one address is granted (in any prefix of its
+calls) is bounded by what its bucket held at the start plus the refill until the last call. -/
+theorem pot (cfg : RateLimitConfig) (U : Nat) (hwf : cfg.Burst * U ≤ cfg.Rate * cfg.TTL) (ip : Nat)
+    (es : List (Nat × REv)) :
+    ∀ (t0 : Nat) (st : RState), Sorted t0 es → InvB t0 (st ip) → ∀ n,
+      t0 ≤ lastTime t0 ((allowsOf ip es (rlRun cfg U es st)).take n) ∧
+      admitted ((allowsOf ip es (rlRun cfg U es st)).take n) * U ≤
+        Phi cfg U (st ip) t0 + cfg.Rate * (lastTime t0 ((allowsOf ip es (rlRun cfg U es st)).take n) - t0) := by
+  induction es with
+  | nil => intro t0 st _ _ n; simp [allowsOf, rlRun, admitted, lastTime]
+  | cons e es ih =>
+    intro t0 st hs hi n
+    obtain ⟨h0, hs'⟩ := hs
+    obtain ⟨t, ev⟩ := e
+    simp only at h0 hs'
+    cases ev with
+    | cleanup =>
+      have hi' : InvB t ((rlStep cfg U t .cleanup st).1 ip) := by
+        simp only [rlStep]
+        exact cleanupB_Inv cfg (fun x hx => Nat.le_trans (hi x hx) h0)
+      have := ih t _ hs' hi' n
+      simp only [rlRun, allowsOf]
+      generalize (allowsOf ip es (rlRun cfg U es (rlStep cfg U t .cleanup st).1)).take n = L at this ⊢
+      have hphi : Phi cfg U ((rlStep cfg U t .cleanup st).1 ip) t = Phi cfg U (st ip) t := by
+        simp only [rlStep]; exact cleanupB_Phi cfg U hwf t (st ip)
+      have hm := Phi_mono cfg U (st ip) hi h0
+      cases L with
+      | nil => simp [admitted, lastTime]
+      | cons x xs =>
+        simp only [lastTime] at this ⊢
+        obtain ⟨h1, h2⟩ := this
+        have h3 := mul_split cfg.Rate t0 t (lastTime x.1 xs) h0 h1
+        exact ⟨by omega, by omega⟩
+    | allow a =>
+      by_cases ha : a = ip
+      · subst ha
+        have hsp := allowB_spec cfg U t (st a)
+        have hi' : InvB t ((rlStep cfg U t (.allow a) st).1 a) := by
+          simp only [rlStep, if_true]
+          intro x hx
+          cases hx
+          exact Nat.le_of_eq hsp.1
+        simp only [rlRun]
+        rw [show (rlStep cfg U t (.allow a) st).2 = some (allowB cfg U t (st a)).2 from rfl]
+        simp only [allowsOf, if_true]
+        cases n with
+        | zero => simp [admitted, lastTime]
+        | succ n =>
+          have := ih t _ hs' hi' n
+          rw [lastTime_take_succ, List.take_succ_cons, admitted_cons]
+          generalize (allowsOf a es (rlRun cfg U es (rlStep cfg U t (.allow a) st).1)).take n = L at this ⊢
+          obtain ⟨h1, h2⟩ := this
+          have hphi : Phi cfg U ((rlStep cfg U t (.allow a) st).1 a) t = (allowB cfg U t (st a)).1.tokens := by
+            simp only [rlStep, if_true, Phi, hsp.1, Nat.sub_self, Nat.zero_mul, Nat.add_zero]
+            have := Phi_le_cap cfg U (st a) t
+            omega
+          have hm := Phi_mono cfg U (st a) hi h0
+          have h3 := mul_split cfg.Rate t0 t (lastTime t L) h0 h1
+          have h4 := hsp.2
+          rw [hphi] at h2
+          dsimp only
+          refine ⟨by omega, ?_⟩
+          rw [Nat.add_mul]
+          split at h4 <;> simp_all <;> omega
+      · have hst : (rlStep cfg U t (.allow a) st).1 ip = st ip := by
+          simp only [rlStep]
+          have : ¬ ip = a := fun h => ha h.symm
+          simp [this]
+        have hi' : InvB t ((rlStep cfg U t (.allow a) st).1 ip) := by
+          rw [hst]; exact fun x hx => Nat.le_trans (hi x hx) h0
+        have := ih t _ hs' hi' n
+        simp only [rlRun]
+        rw [show (rlStep cfg U t (.allow a) st).2 = some (allowB cfg U t (st a)).2 from rfl]
+        simp only [allowsOf, ha, if_false]
+        generalize (allowsOf ip es (rlRun cfg U es (rlStep cfg U t (.allow a) st).1)).take n = L at this ⊢
+        rw [hst] at this
+        have hm := Phi_mono cfg U (st ip) hi h0
+        cases L with
+        | nil => simp [admitted, lastTime]
+        | cons x xs =>
+          simp only [lastTime] at this ⊢
+          obtain ⟨h1, h2⟩ := this
+          have h3 := mul_split cfg.Rate t0 t (lastTime x.1 xs) h0 h1
+          exact ⟨by omega, by omega⟩
+
+theorem prefixesOK_of_bound (cfg : RateLimitConfig) (U : Nat) (x : Nat × Bool) (xs : List (Nat × Bool))
+    (h : ∀ n, admitted ((x :: xs).take n) * U ≤ cfg.Burst * U + cfg.Rate * (lastTime x.1 ((x :: xs).take n) - x.1)) :
+    prefixesOK cfg U (x :: xs) = true := by
+  unfold prefixesOK
+  rw [List.all_eq_true]
+  intro n _
+  simp only [List.headD_cons]
+  exact decide_eq_true (h n)
+
+theorem stretches (cfg : RateLimitConfig) (U : Nat) (hwf : cfg.Burst * U ≤ cfg.Rate * cfg.TTL) (ip : Nat)
+    (es : List (Nat × REv)) :
+    ∀ (t0 : Nat) (st : RState), Sorted t0 es → InvB t0 (st ip) →
+      stretchesOK cfg U (allowsOf ip es (rlRun cfg U es st)) = true := by
+  induction es with
+  | nil => intros; rfl
+  | cons e es ih =>
+    intro t0 st hs hi
+    have hpot := pot cfg U hwf ip (e :: es) e.1 st ⟨Nat.le_refl _, hs.2⟩
+      (fun x hx => Nat.le_trans (hi x hx) hs.1)
+    obtain ⟨h0, hs'⟩ := hs
+    obtain ⟨t, ev⟩ := e
+    simp only at h0 hs' hpot
+    cases ev with
+    | cleanup =>
+      simp only [rlRun]
+      rw [show (rlStep cfg U t .cleanup st).2 = none from rfl]
+      simp only [allowsOf]
+      apply ih t _ hs'
+      simp only [rlStep]
+      exact cleanupB_Inv cfg (fun x hx => Nat.le_trans (hi x hx) h0)
+    | allow a =>
+      simp only [rlRun] at hpot ⊢
+      rw [show (rlStep cfg U t (.allow a) st).2 = some (allowB cfg U t (st a)).2 from rfl] at hpot ⊢
+      by_cases ha : a = ip
+      · subst ha
+        simp only [allowsOf, if_true] at hpot ⊢
+        simp only [stretchesOK, Bool.and_eq_true]
+        constructor
+        · apply prefixesOK_of_bound
+          intro n
+          have h1 := (hpot n).2
+          have h2 := Phi_le_cap cfg U (st a) t
+          dsimp only at h1 ⊢
+          omega
+        · apply ih t _ hs'
+          simp only [rlStep, if_true]
+          intro x hx
+          cases hx
+          exact Nat.le_of_eq (allowB_spec cfg U t (st a)).1
+      · simp only [allowsOf, ha, if_false]
+        apply ih t _ hs'
+        have : ¬ ip = a := fun h => ha h.symm
+        simp only [rlStep, this, if_false]
+        exact fun x hx => Nat.le_trans (hi x hx) h0
+
+theorem rlRun_length (cfg : RateLimitConfig) (U : Nat) (es : List (Nat × REv)) :
+    ∀ st, (rlRun cfg U es st).length = es.length := by
+  induction es with
+  | nil => intro; rfl
+  | cons e es ih => intro st; simp [rlRun, ih]
+
+/-! ### D. handshake -/
+
+def RH (cfg : HCfg) (t : Nat) (s : HState) (l : HLedger) : Prop :=
+  RIpm t s.ipm l.ipm ∧ (∀ a, RComp cfg.bf t (s.bf a) (l.bf a)) ∧ s.rl = l.rl
+
+theorem RH_mono (cfg : HCfg) {t t' : Nat} (h : t ≤ t') {s l} (hr : RH cfg t s l) : RH cfg t' s l :=
+  ⟨RIpm_mono h hr.1, fun a => RComp_mono cfg.bf h (hr.2.1 a), hr.2.2⟩
+
+theorem handshake_sim (cfg : HCfg) (hB : 0 < cfg.bf.BanDuration) (t ip : Nat) (k : HKind) {s l}
+    (hr : RH cfg t s l) :
+    RH cfg t (handshake cfg t ip k s).1 (specHandshake cfg t ip k l).1 ∧
+    (handshake cfg t ip k s).2 = (specHandshake cfg t ip k l).2 := by
+  obtain ⟨h1, h2, h3⟩ := hr
+  have ha := RIpm_allowed h1 ip
+  have hb : isBanned t (s.bf ip).ban = (l.bf ip).refuses t := by
+    rw [RBan_query (h2 ip).2.2]; rfl
+  have hs := step_sim cfg.bf hB t (.success ip) h2
+  have hf := step_sim cfg.bf hB t (.fail ip) h2
+  unfold handshake specHandshake
+  rw [ha, hb, h3]
+  by_cases c1 : (!(l.ipm.allowed t ip)) = true
+  · simp only [c1, if_true]
+    exact ⟨⟨h1, h2, h3⟩, by first | trivial | rfl⟩
+  · simp only [c1, Bool.false_eq_true, if_false]
+    by_cases c2 : (l.bf ip).refuses t = true
+    · simp only [c2, if_true]
+      exact ⟨⟨h1, h2, h3⟩, by first | trivial | rfl⟩
+    · simp only [c2, Bool.false_eq_true, if_false]
+      by_cases c3 : (k.anon && !(allowB cfg.rl cfg.U t (l.rl ip)).2) = true
+      · simp only [c3, if_true]
+        exact ⟨⟨h1, h2, rfl⟩, by first | trivial | rfl⟩
+      · simp only [c3, Bool.false_eq_true, if_false]
+        cases k.outcome with
+        | none => exact ⟨⟨h1, h2, h3⟩, by first | trivial | rfl⟩
+        | some b =>
+          cases b
+          · exact ⟨⟨h1, hf.1, rfl⟩, by first | trivial | rfl⟩
+          · exact ⟨⟨h1, hs.1, rfl⟩, by first | trivial | rfl⟩
+
+theorem hStep_sim (cfg : HCfg) (hB : 0 < cfg.bf.BanDuration) (t : Nat) (e : HEv) {s l}
+    (hr : RH cfg t s l) :
+    RH cfg t (hStep cfg t e s).1 (hSpecStep cfg t e l).1 ∧ (hStep cfg t e s).2 = (hSpecStep cfg t e l).2 := by
+  cases e with
+  | hs ip k =>
+    have := handshake_sim cfg hB t ip k hr
+    simp only [hStep, hSpecStep]
+    exact ⟨this.1, by rw [this.2]⟩
+  | ipm e =>
+    obtain ⟨h1, h2, h3⟩ := hr
+    exact ⟨⟨(ipmStep_sim t e h1).1, h2, h3⟩, rfl⟩
+  | bf e =>
+    obtain ⟨h1, h2, h3⟩ := hr
+    exact ⟨⟨h1, (step_sim cfg.bf hB t e h2).1, h3⟩, rfl⟩
+  | rlCleanup =>
+    obtain ⟨h1, h2, h3⟩ := hr
+    refine ⟨⟨h1, h2, ?_⟩, rfl⟩
+    simp only [hStep, hSpecStep, h3]
+
+theorem hRun_sim (cfg : HCfg) (hB : 0 < cfg.bf.BanDuration) (es : List (Nat × HEv)) :
+    ∀ (t0 : Nat) (s : HState) (l : HLedger), Sorted t0 es → RH cfg t0 s l →
+      hRun cfg es s = hSpecRun cfg es l := by
+  induction es with
+  | nil => intros; rfl
+  | cons e es ih =>
+    intro t0 s l hs hr
+    obtain ⟨h0, hs'⟩ := hs
+    obtain ⟨hn, ha⟩ := hStep_sim cfg hB e.1 e.2 (RH_mono cfg h0 hr)
+    simp only [hRun, hSpecRun]
+    rw [ha, ih e.1 _ _ hs' hn]
+
 end Tunnox.C18
